@@ -19,6 +19,9 @@ import WebrtcVerif.Model.ConnState
               ICE stop (only if !g) · updateConnectionState · graceful ops (only if g) · stats/interceptor close,
               then the deferred channel closes in LIFO order.
   `pc.ops.GracefulClose()` is one terminating step here (the queue itself is C05's model).
+  The graceful operations end with `d.GracefulClose()` of every data channel, which receives from the
+  channel's `readLoopActive`: it blocks until that channel's read loop goroutine has ended — including a
+  read loop that is busy inside the application's OnMessage handler (`LPc`, actions lDeliver/lReturn/lExit).
 
   updateConnectionState (after the repair): the aggregate is computed from a snapshot (`isClosed` read
   without a lock), then — under pc.mu — isClosed is re-read (closed dominates), compared with the stored
@@ -40,8 +43,11 @@ inductive CPc
   | cWait | cWoke        -- `<-pc.isCloseDone`
   | bSig | bMedia | bChannels | bSctp | bDtls | bIce | bUpdate
   | ucs (c : Pc)         -- inside updateConnectionState: `c` computed, critical section not yet entered
-  | bGraceful | bFinish
-  | tail                 -- tailer: doGracefulCloseOps
+  | bGraceful            -- doGracefulCloseOps: ICE GracefulStop, ops.GracefulClose
+  | bJoin                -- … then d.GracefulClose() of every data channel: `<-readLoopActive` (only if g)
+  | bFinish
+  | tail                 -- tailer: doGracefulCloseOps, first part
+  | tJoin                -- tailer: the data-channel joins
   | dG                   -- deferred close(isGracefulCloseDone) pending
   | dC                   -- deferred close(isCloseDone) pending
   | returned
@@ -60,11 +66,19 @@ inductive UPc
   | done
   deriving DecidableEq, Repr
 
-/-- the body steps of close(), in source order -/
-inductive BStep | sig | media | channels | sctp | dtls | ice | update | store | graceful | finish
+/-- a data channel's read loop goroutine (`go d.readLoop()`), started by the connection when the channel opened -/
+inductive LPc
+  | reading        -- blocked in ReadDataChannel
+  | handler        -- inside the application's OnMessage handler (runs on the read loop goroutine)
+  | exited         -- returned: `close(readLoopActive)` done
   deriving DecidableEq, Repr
 
-def BStep.canon : List BStep := [.sig, .media, .channels, .sctp, .dtls, .ice, .update, .store, .graceful, .finish]
+/-- the body steps of close(), in source order -/
+inductive BStep | sig | media | channels | sctp | dtls | ice | update | store | graceful | join | finish
+  deriving DecidableEq, Repr
+
+def BStep.canon : List BStep :=
+  [.sig, .media, .channels, .sctp, .dtls, .ice, .update, .store, .graceful, .join, .finish]
 
 /-- the mutating API entry points that test isClosed -/
 inductive Api
@@ -127,6 +141,7 @@ structure St where
   gOwner : Option Nat := none        -- ghost: the caller that set the graceful flag
   closers : List Closer := []
   updaters : List UPc := []
+  loops : List LPc := []             -- the read loop goroutines of the open data channels
   apiLog : List (Api × ApiOut) := []
   negVersion : Nat := 0              -- bumped by every API call that passes its guards
   deriving Repr, DecidableEq
@@ -137,6 +152,9 @@ inductive Action
   | uStore (u : Nat)                         -- callback `u`: critical section (re-test, compare, store + notify)
   | api (a : Api) (env : ApiEnv)             -- an API call reaches its entry guards
   | env (ice : Ice) (dtls : Dtls)            -- the transports change state on their own
+  | lDeliver (l : Nat)                       -- read loop `l`: a message arrives, the application's handler is entered
+  | lReturn (l : Nat)                        -- read loop `l`: the application's handler returns
+  | lExit (l : Nat)                          -- read loop `l`: ReadDataChannel fails (association stopped / stream closed); the goroutine ends
   deriving DecidableEq, Repr
 
 /-- what the critical section at the end of updateConnectionState stores: the re-read isClosed dominates -/
@@ -151,6 +169,9 @@ def storeSection (s : St) (c : Pc) : St :=
 def gracefulOps (s : St) (g : Bool) : St :=
   { s with iceGracefulStops := s.iceGracefulStops + (if g then 1 else 0),
            opsCloses := s.opsCloses + (if g then 1 else 0) }
+
+/-- every read loop goroutine has ended (all `readLoopActive` channels are closed) -/
+def allExited (ls : List LPc) : Bool := ls.all (· == .exited)
 
 /-- where a caller goes when its function body returns: the deferred closes, LIFO -/
 def afterBody (cl : Closer) : CPc :=
@@ -179,7 +200,9 @@ def cstepFn (s : St) (c : Nat) (cl : Closer) : Option (St × Closer) :=
   | .gWoke => some (s, { cl with pc := .returned })
   | .cWait => if s.closeDone then some (s, { cl with pc := .cWoke }) else none
   | .cWoke => some (s, { cl with pc := .tail })
-  | .tail => some (gracefulOps s cl.g, { cl with pc := afterBody cl })
+  | .tail => some (gracefulOps s cl.g, { cl with pc := .tJoin })
+  | .tJoin =>      -- `<-readLoopActive` for every channel: blocks while a read loop is alive
+      if cl.g && !allExited s.loops then none else some (s, { cl with pc := afterBody cl })
   | .bSig => some ({ s with sigClosed := true, bodyLog := s.bodyLog ++ [.sig] }, { cl with pc := .bMedia })
   | .bMedia => some ({ s with mediaStopped := true, bodyLog := s.bodyLog ++ [.media] }, { cl with pc := .bChannels })
   | .bChannels => some ({ s with channelsClosed := true, bodyLog := s.bodyLog ++ [.channels] }, { cl with pc := .bSctp })
@@ -195,7 +218,10 @@ def cstepFn (s : St) (c : Nat) (cl : Closer) : Option (St × Closer) :=
       some ({ s with bodyLog := s.bodyLog ++ [.store] }, { cl with pc := .bGraceful })
   | .bGraceful =>
       let s := gracefulOps s cl.g
-      some ({ s with bodyLog := s.bodyLog ++ [.graceful] }, { cl with pc := .bFinish })
+      some ({ s with bodyLog := s.bodyLog ++ [.graceful] }, { cl with pc := .bJoin })
+  | .bJoin =>
+      if cl.g && !allExited s.loops then none
+      else some ({ s with bodyLog := s.bodyLog ++ [.join] }, { cl with pc := .bFinish })
   | .bFinish =>
       some ({ s with interceptorCloses := s.interceptorCloses + 1, bodyLog := s.bodyLog ++ [.finish] },
             { cl with pc := afterBody cl })
@@ -229,11 +255,24 @@ def step (s : St) : Action → Option St
       let o := apiOutcome s.isClosed env a
       some { s with apiLog := s.apiLog ++ [(a, o)], negVersion := if o = .proceeds then s.negVersion + 1 else s.negVersion }
   | .env ice dtls => some { s with ice, dtls }
+  | .lDeliver l =>      -- nothing is delivered once the SCTP association has been stopped
+      match s.loops[l]? with
+      | some .reading => if s.sctpStopped then none else some { s with loops := s.loops.set l .handler }
+      | _ => none
+  | .lReturn l =>
+      match s.loops[l]? with
+      | some .handler => some { s with loops := s.loops.set l .reading }
+      | _ => none
+  | .lExit l =>
+      match s.loops[l]? with
+      | some .reading => some { s with loops := s.loops.set l .exited }
+      | _ => none
 
 /-- `gs`: the `shouldGracefullyClose` flag of every future close() caller; `nu` transport callbacks;
-    `c0`: the connection state at the point of setup where closing starts -/
-def init (gs : List Bool) (nu : Nat) (c0 : Pc) : St :=
-  { conn := c0, closers := gs.map (fun g => { g }), updaters := List.replicate nu .idle }
+    `c0`: the connection state at the point of setup where closing starts; `ls`: the read loop
+    goroutines of the data channels open at that point (possibly busy in a handler) -/
+def init (gs : List Bool) (nu : Nat) (c0 : Pc) (ls : List LPc := []) : St :=
+  { conn := c0, closers := gs.map (fun g => { g }), updaters := List.replicate nu .idle, loops := ls }
 
 def runActions (s : St) : List Action → Option St
   | [] => some s
@@ -241,7 +280,7 @@ def runActions (s : St) : List Action → Option St
 
 /-- every state some interleaving can reach (repaired code: `retest = true`) -/
 inductive Reachable (gs : List Bool) (nu : Nat) (c0 : Pc) : St → Prop
-  | init : Reachable gs nu c0 (init gs nu c0)
+  | init (ls : List LPc) : Reachable gs nu c0 (init gs nu c0 ls)
   | step {s s' : St} (a : Action) : Reachable gs nu c0 s → step s a = some s' → Reachable gs nu c0 s'
 
 /-! ### derived notions used by the theorems -/
@@ -257,24 +296,35 @@ def CPc.rank : CPc → Nat
   | .dC => 1
   | .dG => 2
   | .bFinish => 3
-  | .bGraceful => 4
-  | .ucs _ => 5
-  | .bUpdate => 6
-  | .bIce => 7
-  | .bDtls => 8
-  | .bSctp => 9
-  | .bChannels => 10
-  | .bMedia => 11
-  | .bSig => 12
-  | .tail => 3
-  | .cWoke => 4
-  | .cWait => 5
+  | .bJoin => 4
+  | .bGraceful => 5
+  | .ucs _ => 6
+  | .bUpdate => 7
+  | .bIce => 8
+  | .bDtls => 9
+  | .bSctp => 10
+  | .bChannels => 11
+  | .bMedia => 12
+  | .bSig => 13
+  | .tJoin => 3
+  | .tail => 4
+  | .cWoke => 5
+  | .cWait => 6
   | .gWoke => 1
   | .gWait => 2
-  | .cs1 => 13
-  | .idle => 14
+  | .cs1 => 14
+  | .idle => 15
+
+/-- steps a read loop goroutine still takes before it has ended (once nothing is delivered any more) -/
+def LPc.rank : LPc → Nat
+  | .handler => 2
+  | .reading => 1
+  | .exited => 0
 
 def measure (s : St) : Nat := (s.closers.map (fun cl => cl.pc.rank)).sum
+
+/-- … plus what the read loops still have to do -/
+def loopMeasure (s : St) : Nat := (s.loops.map LPc.rank).sum
 
 def CPc.isReturned : CPc → Bool
   | .returned => true
